@@ -257,6 +257,18 @@ TEMPLATES = [
     b"\"\\x4",
     b"\"\\u004",
     b"\"\\U00004",
+    # growth of the state / argument / byte stacks (realloc paths, clone with capacity = count)
+    b"(" * 150 + b"x" + b")" * 150,
+    b"[" * 70 + b"{" * 3,
+    b'"' + b"ab\\n" * 80 + b'"',
+    b"a" * 300,
+    b":" + b"k" * 257,
+    b" ".join(b"v%d" % i for i in range(60)),
+    b"```" + b"line\n  " * 40 + b"```",
+    b"@[" + b"1 " * 100 + b"]",
+    b"{" + b" ".join(b":k%d %d" % (i, i) for i in range(40)) + b"}",
+    b"'" * 64 + b"q",
+    b"# " + b"c" * 200 + b"\n1",
 ]
 
 
@@ -347,7 +359,7 @@ def part_values(chk, texts):
 def part_templates(chk, texts):
     strs = list(TEMPLATES)
     strs += M.negative_cases()
-    stride = 3 if chk.quick else 1
+    stride = 6 if chk.quick else 1
     strs += [t for i, (t, _, _) in enumerate(texts) if i % stride == 0]
     seen = set()
     uniq = []
